@@ -669,6 +669,61 @@ fn direct_value(e: &ExprBoxed<i64>) -> Option<i64> {
     }
 }
 
+/// Boolean reading of a tree, independent of the crate: every distinct term is an atom, the connectives are the Boolean
+/// ones.  The value is returned as the 64-bit vector of results under 64 assignments (all of them when there are at most
+/// 6 atoms, 64 fixed pseudo-random ones otherwise).
+fn atoms_of(e: &ExprBoxed<i64>, acc: &mut Vec<i64>) {
+    match e {
+        ExprBoxed::Term(t) => {
+            if !acc.contains(t) {
+                acc.push(*t)
+            }
+        }
+        ExprBoxed::Not(a) => atoms_of(a, acc),
+        ExprBoxed::And(a, b) | ExprBoxed::Or(a, b) | ExprBoxed::Xor(a, b) => {
+            atoms_of(a, acc);
+            atoms_of(b, acc)
+        }
+        ExprBoxed::Ite(a, b, c) => {
+            atoms_of(a, acc);
+            atoms_of(b, acc);
+            atoms_of(c, acc)
+        }
+    }
+}
+
+fn atom_bits(pos: usize, natoms: usize) -> u64 {
+    if natoms <= 6 {
+        let mut v = 0u64;
+        for j in 0..64u64 {
+            if (j >> pos) & 1 == 1 {
+                v |= 1 << j
+            }
+        }
+        v
+    } else {
+        let mut x = 0x9E37_79B9_7F4A_7C15u64.wrapping_mul(pos as u64 + 1) ^ 0xD1B5_4A32_D192_ED03;
+        x ^= x >> 29;
+        x = x.wrapping_mul(0xBF58_476D_1CE4_E5B9);
+        x ^= x >> 32;
+        x
+    }
+}
+
+fn bool_reading(e: &ExprBoxed<i64>, atoms: &[i64]) -> u64 {
+    match e {
+        ExprBoxed::Term(t) => atom_bits(atoms.iter().position(|x| x == t).unwrap_or(63), atoms.len()),
+        ExprBoxed::Not(a) => !bool_reading(a, atoms),
+        ExprBoxed::And(a, b) => bool_reading(a, atoms) & bool_reading(b, atoms),
+        ExprBoxed::Or(a, b) => bool_reading(a, atoms) | bool_reading(b, atoms),
+        ExprBoxed::Xor(a, b) => bool_reading(a, atoms) ^ bool_reading(b, atoms),
+        ExprBoxed::Ite(a, b, c) => {
+            let x = bool_reading(a, atoms);
+            (x & bool_reading(b, atoms)) | (!x & bool_reading(c, atoms))
+        }
+    }
+}
+
 fn sig_of_raw(r: u32) -> Signal {
     let s = Signal::from_index(r >> 1);
     if r & 1 == 1 {
@@ -746,6 +801,20 @@ pub fn run_eda<W: Write>(lines: &[String], oracle: bool, out: &mut W) {
                             }
                             let mut pos = 1;
                             let e = parse_boxed(&tk, &mut pos);
+                            {
+                                // converting back preserves the Boolean reading, for every tree (Xor and Ite included)
+                                let back = Arena::from_boxed(&e).to_boxed();
+                                let mut atoms = Vec::new();
+                                atoms_of(&e, &mut atoms);
+                                atoms_of(&back, &mut atoms);
+                                let (v0, v1) = (bool_reading(&e, &atoms), bool_reading(&back, &atoms));
+                                if v0 != v1 {
+                                    fail_lines.push(format!(
+                                        "to_boxed gives `{}`, whose Boolean reading {:x} differs from that of the original `{}` ({:x})",
+                                        back.to_string(), v1, e.to_string(), v0
+                                    ));
+                                }
+                            }
                             if let Some(d) = direct_value(&e) {
                                 if parts[3] != format!("e {}", d) {
                                     fail_lines.push(format!("arena evaluates to `{}`, direct recursion gives {}", &parts[3][2..], d));
@@ -759,6 +828,15 @@ pub fn run_eda<W: Write>(lines: &[String], oracle: bool, out: &mut W) {
                         "neg" => {
                             let mut pos = 1;
                             let e = parse_boxed(&tk, &mut pos);
+                            {
+                                let n = ExprBoxed::not(e.clone());
+                                let mut atoms = Vec::new();
+                                atoms_of(&e, &mut atoms);
+                                atoms_of(&n, &mut atoms);
+                                if bool_reading(&n, &atoms) != !bool_reading(&e, &atoms) {
+                                    fail_lines.push(format!("not(e) = `{}` is not the negation of `{}` (Boolean reading)", n.to_string(), e.to_string()));
+                                }
+                            }
                             if let Some(v) = direct_value(&e) {
                                 let n = ExprBoxed::not(e);
                                 if direct_value(&n) != Some(-v) {
